@@ -256,7 +256,7 @@ class RandomGen:
                 c = [o.id for o in m.objs.values() if o.kind == 'P']
                 if not c or len(m.objs) >= pf['max_obj'] + 1:
                     return None
-                return ('cpobj', fresh(), rng.choice(c))
+                return (rng.choice(['cpobj', 'cpobjc']), fresh(), rng.choice(c))
             if kind == 'asobj':
                 c = [o.id for o in m.objs.values() if o.kind == 'P']
                 if len(c) < 2:
